@@ -61,6 +61,7 @@ def case_strategy():
         'sensors': st.lists(sensor, min_size=1, max_size=3, unique_by=lambda s: s['cls']),
         'sd_exp': st.floats(-2.0, 2.0),
         't0': st.sampled_from([0.0, 0.0, 1000.5, -30.0]),
+        'sub_inc': st.sampled_from([1, 1, 2, 5]),           # increments per trajectory row interval (an IMU faster than the stored trajectory)
         'sub': st.integers(0, 2 ** 31 - 1),
     })
 
@@ -102,8 +103,10 @@ class Scenario:
         rng = np.random.RandomState(case['sub'])
         wa = case['with_altitude']
         T, hz = case['T'], case['rate_hz']
-        dt = 1.0 / hz
-        n = int(round(T * hz))
+        ksub = int(case.get('sub_inc', 1))
+        row_dt = 1.0 / hz
+        dt = row_dt / ksub
+        n = int(round(T * hz)) * ksub
         t0 = case.get('t0', 0.0)
         t = t0 + dt * np.arange(1, n + 1)
         crs = np.radians(case['heading'])
@@ -116,7 +119,7 @@ class Scenario:
         fn = np.column_stack([0.5 * np.sin(0.2 * t), 0.4 * np.cos(0.15 * t), -g + (0.2 * np.sin(0.3 * t) if wa else 0 * t)])
         fb = (C0.T @ fn.T).T
         self.inc_clean = pd.DataFrame(np.column_stack([np.full(n, dt), w * dt, fb * dt]), index=pd.Index(t, name='time'), columns=gen.INC_COLS)
-        self.nominal = strapdown.Integrator(pva, wa).integrate(self.inc_clean)
+        self.nominal = strapdown.Integrator(pva, wa).integrate(self.inc_clean).iloc[::ksub]       # rows every ksub-th increment
         self.gm = make_estimation_model(case['gyro'], 1e-4, 1e-4, 1e-6, rng)
         self.am = make_estimation_model(case['accel'], 1e-2, 1e-3, 1e-4, rng)
         # corrupted increments: realised biases / scale-misalignment drawn from the model sigmas (own draw)
@@ -137,7 +140,8 @@ class Scenario:
             err['VD'] = 0.0
         start = sim.perturb_pva(pva, err)
         start.name = t0
-        self.computed = strapdown.Integrator(start, wa).integrate(inc)
+        self.computed = strapdown.Integrator(start, wa).integrate(inc).iloc[::ksub]
+        dt = row_dt                  # from here on: the spacing of the trajectory rows
         times = np.asarray(self.nominal.index, float)
         self.times = times
         self.measurements = []
@@ -246,8 +250,9 @@ def assemble_and_solve(sc, res):
         pva = interp_pose(tc.iloc[i], tc.iloc[i + 1], (tm - times[i]) / (times[i + 1] - times[i]))
         # body rates of the interval holding the epoch (increments are always supplied here): the measurement model of
         # NedVelocity with a lever arm needs them (repo fix fca2907: the feedforward filter used to omit them)
-        row = inc.iloc[i]
-        pva = pd.concat([pva, pd.Series(row[gen.INC_COLS[1:4]].values.astype(float) / float(row['dt']), index=['rate_x', 'rate_y', 'rate_z'])])
+        inside = (inc_t > times[i]) & (inc_t <= times[i + 1])
+        pva = pd.concat([pva, pd.Series(inc[gen.INC_COLS[1:4]].values[inside].sum(axis=0) / inc['dt'].values[inside].sum(),
+                                        index=['rate_x', 'rate_y', 'rate_z'])])
         for m in sc.measurements:
             r = m.compute_matrices(tm, pva, em)
             if r is not None:
@@ -274,7 +279,8 @@ def run_estimator(case, ctx):
               'sm_states' if (sc.gm.scale_misal_modelled or sc.am.scale_misal_modelled) else 'no_sm',
               'walk_states' if (sc.gm.n_noises or sc.am.n_noises) else 'no_walk',
               'shared_epoch' if sc.shared else 'no_shared_epoch',
-              'rows_sparser_than_step' if 1.0 / case['rate_hz'] > case['time_step'] else 'rows_denser_than_step')
+              'rows_sparser_than_step' if 1.0 / case['rate_hz'] > case['time_step'] else 'rows_denser_than_step',
+              f"increments_per_row={case.get('sub_inc', 1)}")
     if o['unattached']:
         ctx.inconclusive['sample_node_not_on_grid'] += 1
         return
